@@ -33,3 +33,24 @@ package types
 //@ func FrontierSigner.Sender
 //@   requires tx != nil && tx.data.V != nil && tx.data.R != nil && tx.data.S != nil
 //@   ensures[C12] @range err == nil ==> 1 <= big(tx.data.R) && big(tx.data.R) < SECP_N && 1 <= big(tx.data.S) && big(tx.data.S) < SECP_N
+
+// ---- block.go: observers of an immutable block (trusted: pure functions of the block) ---------
+//@ func Block.Hash
+//@   trusted
+//@   ensures result == blockhash(b)
+//@   assigns nothing
+//@ func Block.ParentHash
+//@   trusted
+//@   ensures result == blockparent(b)
+//@   assigns nothing
+//@ func Block.NumberU64
+//@   trusted
+//@   ensures result == blocknum(b)
+//@   assigns nothing
+//@ func Block.Difficulty
+//@   trusted
+//@   ensures result != nil && big(result) == blockdiff(b) && fresh(result)
+//@   assigns nothing
+
+//@ func CopyHeader
+//@   keeps big
